@@ -16,6 +16,7 @@ class ClassView:
         self.isobj = c.get('isobj', False)
         self.fields = []        # (fid, kind list, name)
         self.derived = set()    # fids assigned by write pre-processing
+        self.selectors = {}     # fid -> boundary values of the constants it is compared with in read/write/size code
         self.read_derived = set()   # fids assigned (not decoded) by read(): selectors such as apiMajor / _present
         self.derivs = []        # (len fid, cast type, container fid, multiplier)
         self.pads = False
@@ -30,6 +31,9 @@ class ClassView:
             self.fields.append((f['id'] + shift, f['kind'], prefix + f['name'], f['init']))
         for d in c.get('assigned_in_write', []):
             self.derived.add(d + shift)
+        for sf, vals in c.get('selectors', {}).items():
+            self.selectors.setdefault(int(sf) + shift, [])
+            self.selectors[int(sf) + shift] += [x for x in vals if x not in self.selectors[int(sf) + shift]]
         for d in c.get('assigned_in_read', []):
             self.read_derived.add(d + shift)
         for lf, t, cf, k in c.get('derivs', []):
